@@ -90,6 +90,25 @@ def iso_defect(core, side):
 
 
 
+def value_snapshot(ts):
+    """dense value and shape metadata of arguments (a re-gauged but equal argument is not a changed argument)"""
+    return [(t, list(t.row_dims), list(t.col_dims), list(t.ranks), contract(t.cores).copy()) for t in ts]
+
+
+def value_changed(snaps):
+    """name of the first clause by which an argument differs from its snapshot, or None"""
+    for t, rd, cd, rk, v in snaps:
+        if metadata_problem(t):
+            return 'metadata: ' + metadata_problem(t)
+        if list(t.row_dims) != rd or list(t.col_dims) != cd or list(t.ranks) != rk:
+            return 'dims/ranks %r %r %r -> %r %r %r' % (rd, cd, rk, t.row_dims, t.col_dims, t.ranks)
+        w = contract(t.cores)
+        if w.shape != v.shape or not np.all(np.isfinite(w)) or \
+                np.max(np.abs(w - v)) > 1e-9 * max(1.0, float(np.max(np.abs(v)))):
+            return 'dense value'
+    return None
+
+
 def same_state(t, x0):
     """the trajectory starts with the initial state: the argument itself or an equal tensor train"""
     if t is x0:
